@@ -30,6 +30,7 @@ SPEC = {
         "reference semantics GluonModel/Spec/SeqSetSpec.lean (RFC 3501 sequence-set selection over a view, numbers unbounded) is the definition of 'correct'; theorem reference_selection_is_rfc_rule relates its executable list to the rule written as predicates",
         "verif hook internal/state/verif_export.go VerifResolve (builds the snapMsgList with insert, cap = len); the parser is reached through the public packages rfcparser and imap/command",
         "golang.org/x/exp/slices.BinarySearchFunc is modelled from its source at the pinned version (loop with h = (i+j)/2)",
+        "facts translator harness/facts_msgset.go (go/types): every use of a []command.SeqRange value in internal/session and internal/state -> Generated/Facts/MsgSet.lean, decided by message_sets_reach_only_modelled_functions",
         "wire oracle harness/o_c16wire.go + harness/sys.go (IMAP client, reading the view with UID FETCH 1:* (FLAGS), COPYUID parsing); the model of SEARCH with a message-set key (searchSeqSet/searchUIDSet) and the mapping of errors to BAD/NO are tied at wire level only (dialect c16-wire-model, compared by the oracle)",
     ],
     "assumptions": [
@@ -37,9 +38,10 @@ SPEC = {
         "UID-mode theorems assume the snapshot invariant Snap.Inv (strictly ascending UIDs; C01 proves it is preserved)",
         "Go checks a slice's upper bound against the capacity, the model against the length: on every call path the upper bound is <= len (the model panics at least as often as the code)",
         "texts with leading zeros (not RFC nz-numbers) are accepted by the parser with their decimal value (parseNumber_any_digit_string); the judge treats them as outside the property",
-        "which commands hand their message-set argument to getMessagesInRange / resolve*Interval (FETCH, STORE, COPY, MOVE, SEARCH, UID EXPUNGE) and that ErrNoSuchMessage and parse errors are answered with a tagged BAD is read off internal/session/handle_*.go and exercised by the wire oracle, not regenerated as facts",
+        "that ErrNoSuchMessage and parse errors are answered with a tagged BAD is read off internal/session/handle_*.go and exercised by the wire oracle, not regenerated as facts (which code receives a message set IS regenerated: message_sets_reach_only_modelled_functions)",
         "SEARCH theorems are partial (search_seqset_partial: the set is valid for the view; search_uidset_partial: the mailbox is not empty); the full statements are false today (search_beyond_count_not_rejected, search_uid_on_empty_fails) and the wire oracle reports both",
-        "COPY/MOVE of a set whose items overlap (1,1 or 1:3,2) fails with NO (UNIQUE constraint in the database layer, outside the Lean model; overlapping_items_select_twice shows the duplicated selection); reported by the wire oracle",
+        "COPY/MOVE of a set whose items overlap (1,1 or 1:3,2) used to fail with NO (F1, repaired by 5288904: snapshot.getMessagesInRange removes repetitions, modelled as uniqueById; selection = asSet of the RFC list: text_seqset_spec, selection_is_a_set, selection_set_semantics)",
+        "views that still hold messages expunged by another session (oracle kinds STALE*, Server.VerifHold): the set must be read against the session's view; following RFC 2180 the judge accepts NO or a missing message only for messages that no longer exist",
     ],
     "explanation": "Lean theorems over the text-to-messages model for every RFC sequence set (numbers of any magnitude), every view and both modes: selection = RFC 3501 or BAD, a number beyond the count is always an error, no panic for any input text, UID sets skip absent UIDs with the one excluded case n:* characterised exactly; model tied to the real parser and resolve functions by differential testing; the RFC judge is evaluated on the implementation's answers",
 }
